@@ -222,6 +222,24 @@ func runGS(t []string) string {
 				}
 			}
 			regs = append(regs, r)
+		case "pcsm":
+			// precomputed-table scalar multiplications accumulated into one extended point:
+			// sum_n s_n * regs[idx_n] through NewPrecompPoint / PrecompPoint.ScalarMul (8-bit windows)
+			idx := intsOf(p[1])
+			ss := frsOf(p[2])
+			acc := bandersnatch.IdentityExt
+			for n, j := range idx {
+				pp, err := banderwagon.NewPrecompPoint(regs[j], 8)
+				if err != nil {
+					errk(k)
+					break
+				}
+				if !ss[n].IsZero() {
+					pp.ScalarMul(ss[n], &acc)
+				}
+			}
+			r = banderwagon.VerifFromRaw(acc.X, acc.Y, acc.Z)
+			regs = append(regs, r)
 		case "msmp":
 			v := polyOfSpec(256, "s:"+p[1])
 			v0 := append([]fr.Element(nil), v...)
